@@ -29,6 +29,7 @@ import Driver.VerifyFmtDesBcrypt
 import Driver.TotpTime
 import Driver.CtxIni
 import Driver.CodeDes
+import Driver.CodeDigest
 import Driver.CodeIter
 /-
 Line protocol driver: `<suite> <op> <args…>` per input line, one result line out.
@@ -67,6 +68,7 @@ def dispatch (line : String) : String :=
   | "ttime" :: rest => Driver.TotpTime.handle rest
   | "cini" :: rest => Driver.CtxIni.handle rest
   | "cdes" :: rest => Driver.CodeDes.handle rest
+  | "cdig" :: rest => Driver.CodeDigest.handle rest
   | "citer" :: rest => Driver.CodeIter.handle rest
   | _ => Driver.bad
 
